@@ -86,6 +86,26 @@ def run(rep):
             setT = atoms['C'][1]
             rep.check(setT[0] == 'new' and setT[3] == (), 'C08.closure-set', 'closure-set', where, f'the membership set is {E.show(setT, maxdepth=3)}', ok_detail=f'{setT[1]} created once')
             closure_discipline(ogp, rep, 'C08.closure-set', q, setT, modP, where)
+    # a selected struct always yields its item: no branch of the item's own body may produce nothing (e.g. `if members.is_empty() { return
+    # quote!() }` inside the function that builds the item - the impl blocks and helper signatures still refer to the struct)
+    from sections import _is_empty_value
+    empties = []
+
+    def item_spine(t_, depth=0):
+        if depth > 6 or not isinstance(t_, tuple) or not t_:
+            return
+        if t_[0] == 'alt':
+            for c_, v_ in t_[1]:
+                if _is_empty_value(v_):
+                    empties.append(c_)
+                else:
+                    item_spine(v_, depth + 1)
+        elif t_[0] == 'opt':
+            empties.append(t_[1])
+    item_spine(st[3])
+    rep.check(not empties, 'C08.filter-formula', 'item-empty-branch', where,
+              f'the item of a selected struct is empty under {[E.show(c_, maxdepth=4) for c_ in empties][:2]}: the struct is selected (and referred to elsewhere) but not emitted',
+              ok_detail='a selected struct always yields its item')
     # ---- once each: no second producer -----------------------------------------------------------------------------------------------
     tops = [tq for tq in ogp.summaries if any(c[0] == tq and c[1] == q for c in ogp.it.inline_calls)]
     for tq in tops:
